@@ -225,3 +225,17 @@ func (w *wbuild) damageCache(m *Machine) string {
 	}
 	return "removed " + rel
 }
+
+// Remap attributes scheduler-level findings to the property they contradict in this world:
+// a hang after an interrupt was delivered is "does not exit within a bounded time" (C18);
+// a hang in remote mode is "a remote error degrades ... never to a hang" (C08).
+func (w *wbuild) Remap(v *simrt.Violation) {
+	if v.Class != "hang" || v.Prop != "C04" {
+		return
+	}
+	if w.fs != nil && w.fs.sigStep != 0 {
+		v.Prop = "C18"
+	} else if w.mode == "remote" && w.focus == "faults" {
+		v.Prop = "C08"
+	}
+}
